@@ -316,6 +316,10 @@ func (c *FnCtx) sevField(sc *specCtx, x *Term, name string, e *SExpr) *Term {
 		c.specErr(e, "field %s of a value without Go type", name)
 	}
 	t := x.GoT
+	if strings.HasPrefix(name, "$") {
+		hn, srt, gt := c.ghostField(t, name, e)
+		return c.heapRead(sc.st, hn, srt, x).withGo(gt)
+	}
 	// pairs
 	if strings.HasPrefix(x.Sort, "Pair_") {
 		ab := c.ts.pairOf[x.Sort]
@@ -783,4 +787,19 @@ func containsInterp(t *Term) bool {
 		}
 	}
 	return false
+}
+
+// ghostField resolves a ghost field of an external type declared in a library spec.
+func (c *FnCtx) ghostField(t types.Type, name string, e *SExpr) (heapName, sort string, gt types.Type) {
+	n := ownerNamed(t)
+	if n == nil {
+		c.specErr(e, "ghost field %s on unnamed type", name)
+	}
+	key := n.Obj().Pkg().Path() + "." + n.Obj().Name() + "." + name
+	ty, ok := c.eng.ghostFields[key]
+	if !ok {
+		c.specErr(e, "undeclared ghost field %s", key)
+	}
+	gt = c.resolveType(ty, e)
+	return "GH_" + sanitize(key), c.ts.sortOf(gt), gt
 }
